@@ -54,13 +54,15 @@ namespace c06
                 return false;
         } else if (kind == K_ARRAY) {
             bool done = false;
-            meta::template_for<MAXN>([&](auto i) {
-                constexpr size_t N = decltype(i)::value + 1;
-                if (s.size() == N) {
-                    f(to_array<N>(s));
-                    done = true;
-                }
-            });
+            if constexpr (MAXN > 0) {
+                meta::template_for<MAXN>([&](auto i) {
+                    constexpr size_t N = decltype(i)::value + 1;
+                    if (s.size() == N) {
+                        f(to_array<N>(s));
+                        done = true;
+                    }
+                });
+            }
             return done;
         }
         return false;
